@@ -25,6 +25,22 @@ CHECKS = {
  "C20": dict(cat="exploration", technique="exhaustive boundary grid + Hypothesis random pairs against tuple comparison",
    text="625 grid pairs x 6 operators exhaustively, random uinteger pairs, ranges/locations, foreign objects; oracle is Python tuple comparison and the stated repr format.",
    note="coordinates are valid uintegers", ref="3/C20"),
+
+ "C10": dict(cat="exploration", technique="exhaustive over attributes x Hypothesis-generated surroundings; null-vs-omitted oracle from lsp.json",
+   text="Every attribute of every generated class is toggled between set / null / unset inside generated valid objects, serialised through the constructor path and parsed with the key deleted; the oracle is the rule as stated, computed from lsp.json.",
+   note="exhaustive in (class, attribute), sampled in surroundings; unset result of a response whose result type does not admit null is not judged (not a value of the annotated type)", ref="3/C10"),
+ "C11": dict(cat="exploration", technique="property-based testing (Hypothesis): single-field mutation of valid values must be rejected",
+   text="Exhaustive over root-level (structure, property, edit) triples with generated surroundings plus random nested edit sites; each of the four stated edits must make structuring raise.",
+   note="edit sites never lie below a real union; CompletionItemKind is open (documented customisation)", ref="3/C11"),
+ "C12": dict(cat="exploration", technique="exhaustive boundary grid x attributes + Hypothesis ints; range predicate oracle at both entry points; validator fuzzing",
+   text="All directly integer-typed attributes x the boundary set exhaustively and random ints through constructor and converter (same verdict, equal to the range predicate); the two validator functions with arbitrary Python values.",
+   note="bool excluded from the int verdict", ref="3/C12"),
+ "C13": dict(cat="exploration", technique="exhaustive enumeration of enum values and use sites + Hypothesis custom/outside values",
+   text="Static comparison of all enumerations (multiset of values, both directions) and, at every use site and root, every declared value must parse/round-trip, custom values for open enumerations, outside values rejected for closed ones when no reading makes the root valid.",
+   note="alias objects are not used as roots (C01 known finding)", ref="3/C13"),
+ "C14": dict(cat="exploration", technique="exhaustive over (union occurrence, alternative, use site) with Hypothesis-generated shapes; C03 predicate as oracle",
+   text="Every union occurrence of lsp.json is pinned to each alternative at every use site inside a generated valid root, in minimal/maximal/random shapes; structuring must not raise and must yield an alternative the value is valid for.",
+   note="partialResult/errorData unions have no typed surface in the package and are listed as unreachable in the evidence", ref="3/C14"),
 }
 
 def main():
